@@ -46,6 +46,7 @@ var (
 	dlRequests  []dlReq
 	dlProvFound bool
 	dlProvValid bool
+	dlProvEmpty bool
 )
 
 func dlLoadRepoConfig(file string) (*repo.File, error) { return dlRepoFile, nil }
@@ -61,6 +62,9 @@ func dlClientDo(c *http.Client, req *http.Request) (*http.Response, error) {
 	dlRequests = append(dlRequests, dlReq{req.URL.String(), req.Header.Get("Authorization")})
 	if strings.HasSuffix(req.URL.Path, ".prov") && !dlProvFound {
 		return &http.Response{StatusCode: 404, Status: "404 Not Found", Body: io.NopCloser(strings.NewReader(""))}, nil
+	}
+	if strings.HasSuffix(req.URL.Path, ".prov") && dlProvEmpty {
+		return &http.Response{StatusCode: 200, Status: "200 OK", Body: io.NopCloser(strings.NewReader(""))}, nil
 	}
 	return &http.Response{StatusCode: 200, Status: "200 OK", Body: io.NopCloser(strings.NewReader("data"))}, nil
 }
@@ -85,6 +89,10 @@ func H19Download() {
 	refForm := ndChoice("ref", 3) // repo/name, the absolute URL from the index, an absolute URL no repository owns
 	strategy := []VerificationStrategy{VerifyNever, VerifyIfPossible, VerifyAlways, VerifyLater}[ndChoice("verify", 4)]
 	provFound, provValid := ndBool("provFound"), ndBool("provValid")
+	provEmpty := provFound && ndBool("provEmpty") // the server answers 200 with an empty body
+	if provEmpty {
+		provValid = false
+	}
 
 	entry := &repo.Entry{Name: "r", URL: dlRepoURL, PassCredentialsAll: passAll}
 	if hasCreds {
@@ -134,7 +142,9 @@ func H19Download() {
 					http.NotFound(w, r)
 					return
 				}
-				w.Write(provBytes)
+				if !provEmpty {
+					w.Write(provBytes)
+				}
 				return
 			}
 			w.Write(chartBytes)
@@ -148,7 +158,7 @@ func H19Download() {
 		dlRepoFile = repo.NewFile()
 		dlRepoFile.Add(entry)
 		dlIndex = idx
-		dlProvFound, dlProvValid = provFound, provValid
+		dlProvFound, dlProvValid, dlProvEmpty = provFound, provValid, provEmpty
 	}
 	c := &ChartDownloader{Out: io.Discard, Verify: strategy, Keyring: "testdata/helm-test-key.pub",
 		Getters:          getter.Providers{{Schemes: []string{"http", "https"}, New: getter.NewHTTPGetter}},
